@@ -607,8 +607,9 @@ func c15CLI(run *report.Run, env *Env, muts []c15mut, jobs []*genrun.Job, result
 		c.Stderr = &stderr
 		c.Stdout = &stderr
 		err := c.Run()
+		timedOut := ctx.Err() == context.DeadlineExceeded
 		cancel()
-		if ctx.Err() != nil {
+		if timedOut {
 			run.Violate(&report.Violation{Attrs: map[string]string{"class": "cli-hang"}, State: muts[i].doc + " :: " + muts[i].desc,
 				Observed: "the CLI did not exit within 10 minutes although the library run of the same document terminated (" + results[i].Outcome + ")", Expected: "exit", Detail: map[string]any{"job": jobs[i]}})
 			os.RemoveAll(dir)
